@@ -293,7 +293,8 @@ def struct_cases(draw):
         while t.kind == "scalar":
             t = small_type(g, draw)
         types.append(t)
-    return {"defs": g.defs, "types": [(t.kind, t.tag) for t in types], "trees": [tree_json(t) for t in types], "t": draw(st.integers(0, 2))}
+    return {"defs": g.defs, "types": [(t.kind, t.tag) for t in types], "trees": [tree_json(t) for t in types], "t": draw(st.integers(0, 2)),
+            "first": [draw(st.sampled_from([0, 0, 1, 2, 3])) for _ in types]}
 
 
 def tree_json(t):
@@ -319,6 +320,29 @@ SIZE = {"char": 1, "signed char": 1, "unsigned char": 1, "_Bool": 1, "short": 2,
         "unsigned long": 8, "long long": 8, "double": 8, "void *": 8}
 
 
+def first_use_lines(i, tn, first):
+    out = []
+    if first == 1:
+        out.append("int cb%d(%s, int x) { return x; }" % (i, tn))
+        out.append("int use%d(%s *p) { return cb%d(*p, 1); }" % (i, tn, i))
+    elif first == 2:
+        out.append("long cb%d(int, %s, long y) { return y; }" % (i, tn))
+        out.append("long use%d(%s *p) { return cb%d(1, *p, 2); }" % (i, tn, i))
+    elif first == 3:
+        out.append("void sink%d(%s); void cb%d(%s *p) { sink%d(*p); }" % (i, tn, i, tn, i))
+    out.append("%s pass%d(%s v) { return v; }" % (tn, i, tn))
+    return out
+
+
+def struct_unit(case):
+    """The by-value unit of a structural case (shared with C03)."""
+    lines = list(case["defs"])
+    for i, (kind, tag) in enumerate(case["types"]):
+        first = (case.get("first") or [0] * len(case["types"]))[i]
+        lines.extend(first_use_lines(i, "%s %s" % (kind, tag), first))
+    return "\n".join(lines) + "\n"
+
+
 def struct_check(case, ctx):
     res = Result()
     target = cproc.TARGETS[case["t"]]
@@ -327,7 +351,10 @@ def struct_check(case, ctx):
     tabs = []
     for i, ((kind, tag), tj) in enumerate(zip(case["types"], case["trees"])):
         tn = "%s %s" % (kind, tag)
-        lines.append("%s pass%d(%s v) { return v; }" % (tn, i, tn))
+        # how the type first reaches the backend: as named parameter/return (0), as an unnamed parameter of a definition
+        # (C23; first or in the middle), or as a call argument
+        first = (case.get("first") or [0] * len(case["types"]))[i]
+        lines.extend(first_use_lines(i, tn, first))
         ents = ["sizeof(%s)" % tn, "_Alignof(%s)" % tn]
         lv = []
         for path, lj in all_leaves(tj, ""):
@@ -372,6 +399,18 @@ def struct_check(case, ctx):
         if f is None or not f.rettype or not f.params or f.params[0][0] != f.rettype:
             res.fail = dict(sig="", msg="pass%d: aggregate parameter/return are not described by one IL type: %s" % (i, f and (f.rettype, f.params)), input=src)
             return res
+        first = (case.get("first") or [0] * len(case["types"]))[i]
+        if first:
+            g = funcs.get("cb%d" % i)
+            if first == 3:
+                got_cls = [ca[0][0] for b_ in g.blocks for ins in b_.insts if ins.op == "call" and ins.cargs for ca in [ins.cargs]] if g else []
+            else:
+                got_cls = [g.params[first - 1][0]] if g and len(g.params) >= first else []
+            if got_cls != [f.rettype]:
+                res.fail = dict(sig="", msg="cb%d: the aggregate %s is described as %s where pass%d uses %s (first use shape %d)" % (i, tn, got_cls, i, f.rettype, first),
+                                input=src, il=p.out.decode()[:1500])
+                return res
+            res.labels.append("first-use-shape:%d" % first)
         size, align, flat = qbeil.type_layout(mod, f.rettype[1:])
         tab = struct.unpack("<%dQ" % len(ents), elf.sym_bytes(elf.symbol("tab%d" % i)))
         csize, calign = tab[0], tab[1]
